@@ -7,7 +7,8 @@
 From Coq Require Import NArith ZArith List Lia.
 From RsM Require Import Model.Tlv Model.TlvSpec
   Proofs.TlvFacts Proofs.TlvTotal Proofs.TlvWriter Proofs.TlvRoundtrip
-  Proofs.TlvWithin Proofs.TlvScalar Proofs.TlvReencode.
+  Proofs.TlvWithin Proofs.TlvScalar Proofs.TlvReencode Proofs.TlvIter Proofs.TlvDecodeInv
+  Proofs.TlvMonitor.
 Import ListNotations.
 Open Scope N_scope.
 
@@ -82,6 +83,25 @@ Theorem C16_u64_minimal_width : forall (t : tag) (n : N),
 Proof. exact w_u64_minimal. Qed.
 Print Assumptions C16_u64_minimal_width.
 
+(** The two iterators over the content of a written container:
+    [tlv_iter] (repaired, F9b/F9c) yields the complete flattened stream of
+    all descendants - container starts and ends included, to any depth -
+    and stops at the end of the container; [iter] yields one slice per
+    child, each starting with that child's encoding. *)
+Theorem C16_tlv_iter_roundtrip : forall (cs : list tree) (rest : bytes),
+  wf_list cs -> blen (encode_list cs ++ w_end ++ rest) < two63 ->
+  tlv_iter_all (encode_list cs ++ w_end ++ rest) = ROk (map inl (flat_map flatten cs)).
+Proof. exact tlv_iter_flatten. Qed.
+Print Assumptions C16_tlv_iter_roundtrip.
+
+Theorem C16_iter_children : forall (cs : list tree) (rest : bytes),
+  wf_list cs -> blen (encode_list cs ++ w_end ++ rest) < two63 ->
+  exists slices, seq_iter_all (encode_list cs ++ w_end ++ rest) = ROk (map inl slices) /\
+    length slices = length cs /\
+    Forall2 (fun sl c => exists tl, sl = encode c ++ tl) slices cs.
+Proof. exact seq_iter_children. Qed.
+Print Assumptions C16_iter_children.
+
 (** * Re-encoding
 
     [ToTLV for TLVElement]: an element whose tag and value can be read,
@@ -92,6 +112,17 @@ Theorem C16_reencode : forall (s : bytes) (c : control_t) (t : tag) (v : bytes),
   el_to_tlv t s = ROk (firstn (N.to_nat (hdr_len c + blen v)) s).
 Proof. exact el_to_tlv_reproduces. Qed.
 Print Assumptions C16_reencode.
+
+(** The same at the level of trees: whatever byte string decodes to a
+    tree starts with exactly the encoding of that tree, and the tree is
+    well-formed ([wf_root]: well-formed, or a lone end-of-container marker
+    at the root).  Decoder and writer are inverse on everything the decoder
+    accepts. *)
+Theorem C16_decode_reencode : forall (s : bytes) (x : tree),
+  is_bytes s -> blen s < two63 -> decode s = ROk x ->
+  wf_root x /\ exists rest, s = encode x ++ rest.
+Proof. exact decode_reencode. Qed.
+Print Assumptions C16_decode_reencode.
 
 (** * Reported length within the input
 
@@ -117,6 +148,21 @@ Theorem C16_string_within_input : forall (s : bytes) (c : control_t) (v : bytes)
   hdr_len c + blen v <= blen s /\ mon_within s (hdr_len c) v = true.
 Proof. exact str_within. Qed.
 Print Assumptions C16_string_within_input.
+
+(** * The monitors run on the implementation's outputs are sound *)
+Theorem C16_monitors_sound :
+  (forall t written, mon_roundtrip t written = true -> decode written = ROk t) /\
+  (forall l, mon_no_panic l = true -> Forall (fun o => o = CValue \/ o = CError) l) /\
+  (forall input off v, mon_within input off v = true ->
+     off + blen v <= blen input /\ v = firstn (length v) (skipn (N.to_nat off) input)) /\
+  (forall input reenc, mon_reencode input reenc = true -> reenc = firstn (length reenc) input).
+Proof.
+  repeat split.
+  - exact mon_roundtrip_sound. - exact mon_no_panic_sound.
+  - apply mon_within_sound; assumption. - apply mon_within_sound; assumption.
+  - exact mon_reencode_sound.
+Qed.
+Print Assumptions C16_monitors_sound.
 
 (** * The defects that were repaired (DESIGN section 8, F9)
 
